@@ -15,7 +15,7 @@ CONFIGS_THOROUGH = CONFIGS + [("dyn", "prod"), ("sse", "san")]
 RULE = ("valid texts: every combination of value kinds as array element / member value / root, member and element counts 0..40 with mixed kinds and 41..300 (+ sparse to 5003) "
         "with integer children (crossing the Xmemcpy 4-/8-chunk unrolls, their tails and any bulk-copy threshold), nesting to depth 64, whitespace runs longer than a 64-byte block, containers closing at "
         "64-byte block edges (text shifted so the closing bracket lands on offsets 62..65), strings and numbers straddling block edges, "
-        "duplicate keys.  distinct = distinct command line; non-trivial = contains a container or an escape")
+        "duplicate keys; pretty-printed documents with every indentation width 0..140 (blanks, tabs, CRLF).  distinct = distinct command line; non-trivial = contains a container or an escape")
 EXPLANATION = ("Oracle: the value computed by Spec.Json.parse (Lean), rendered canonically; the implementation's document is read back through "
                "the public accessor API only (type tests, Size, iteration, getters) and must render identically (number kinds and bit patterns, "
                "decoded string bytes, member order, duplicates). Theorems: C05 (strings), C04 (numbers) and, as they land, C03_sax_assemble / "
@@ -83,6 +83,8 @@ def generate(rng, tier):
                 continue
             add(b" " * sh + body, "shift")
             add(body[:1] + b" " * sh + body[1:-1] + b"\n" * (64 - (sh % 64)) + body[-1:], "ws-run")
+    for t in G.pretty_docs(rng, quick):
+        add(t, "pretty-printed")
     for _ in range(1500 if quick else 120000):
         add(G.gen_doc(rng, maxdepth=rng.choice([2, 4, 6])), "random")
     return cases
